@@ -32,7 +32,7 @@ GtOrdered(gt) == \A j \in 1..(Len(gt) - 1) :
 Over(e, f, a) == SumSeq([h \in 1..e.k |-> IF e.hapnum[h] = a THEN f[h] ELSE 0])
 
 Verdict(e) ==
-  LET chs == [c \in 1..e.c |-> ChainRetained(e.tr, e.c, e.s, c, e.burn, e.lab)]
+  LET chs == TLCEval([c \in 1..e.c |-> ChainRetained(e.tr, e.c, e.s, c, e.burn, e.lab)])
       K == IF e.kind = "hap" THEN e.k ELSE e.nrec
       sm == SummaryOf(chs, e.p, K, e.kind, <<e.theta>>)
       n == sm.n
